@@ -26,6 +26,7 @@ import Nervus.Proofs.CypherJoin
 import Nervus.Proofs.CypherAgg
 import Nervus.Proofs.CypherCore
 import Nervus.Proofs.CypherF1a
+import Nervus.Proofs.CypherF1aDir
 import Nervus.Model.QRun
 import Nervus.Model.QAlgebra
 namespace Nervus.Props.C11
@@ -85,6 +86,21 @@ theorem C11_F1a_hop_out (A : Algebra) (env : Env) (hsym : EqSymm A) (hg : env.g.
     Agrees (Exec.run A env (.match_ false [hopPat a la ev rels d dl] :: tail))
       (Spec.denote A env (.match_ false [hopPat a la ev rels d dl] :: tail)) :=
   f1a_hop_out_agrees A env hsym hg hnp a d la dl rels ev tail hrels had hev hap hdp hep hin hc hs
+
+/-- **C11 on F1a, one hop in any direction** — `MATCH (a:La)-[ev:T…]->(d:Ld)`, `<-[…]-` or `-[…]-` (undirected, with
+    the self-loop rule) as the first clause, then core clauses without DISTINCT / SKIP / LIMIT, on graphs without
+    parallel copies: the same bag of rows.  For the incoming and the undirected hop the engine binds the
+    destination before the relationship variable, so model and reference rows agree up to column order until the
+    first projection (`HRelE`). -/
+theorem C11_F1a_hop (A : Algebra) (env : Env) (hsym : EqSymm A) (hg : env.g.NodesDistinct)
+    (hnp : NoParallel env.g) (dir : Dir) (a d : String) (la dl rels : List String) (ev : Option String)
+    (tail : Query) (hrels : rels.Nodup) (had : a ≠ d) (hev : ∀ e, ev = some e → e ≠ a ∧ e ≠ d)
+    (hap : a ≠ pa0) (hdp : d ≠ pa0) (hep : ∀ e, ev = some e → e ≠ pa0) (hin : pa0 ∉ introduced tail)
+    (hc : bagClauses true tail = true)
+    (hs : Spec.WellScoped (.match_ false [hopPatD dir a la ev rels d dl] :: tail)) :
+    Agrees (Exec.run A env (.match_ false [hopPatD dir a la ev rels d dl] :: tail))
+      (Spec.denote A env (.match_ false [hopPatD dir a la ev rels d dl] :: tail)) :=
+  f1a_hop_agrees A env hsym hg hnp dir a d la dl rels ev tail hrels had hev hap hdp hep hin hc hs
 
 /-- the reference's core clauses (no DISTINCT / SKIP / LIMIT: `bagClauses`) respect "same bag of rows once the hidden
     path column is erased" — the relation between the rows of a MATCH plan and the reference's rows; with
@@ -352,6 +368,11 @@ def q5tail : Query :=
 example : bagClauses true q5tail = true ∧ pa0 ∉ introduced q5tail ∧ "a" ≠ pa0 ∧ "b" ≠ pa0 ∧ "r" ≠ pa0 ∧
     Spec.WellScoped (.match_ false [hopPat "a" ["A"] (some "r") ["T"] "b" []] :: q5tail) := by decide
 example : okRows (Exec.run small { g := g1 } (.match_ false [hopPat "a" ["A"] (some "r") ["T"] "b" []] :: q5tail)) =
+    some [[("k", .int 2)]] := by decide
+
+/-- the undirected instance `MATCH (a:A)-[r:T]-(b) WHERE a.k = 1 RETURN b.k AS k` (hypotheses as for q5tail) -/
+example : Spec.WellScoped (.match_ false [hopPatD .both "a" ["A"] (some "r") ["T"] "b" []] :: q5tail) := by decide
+example : okRows (Exec.run small { g := g1 } (.match_ false [hopPatD .both "a" ["A"] (some "r") ["T"] "b" []] :: q5tail)) =
     some [[("k", .int 2)]] := by decide
 
 /-- `UNWIND [3,1,1] AS x WITH DISTINCT x AS y SKIP 1 WHERE y < 5 RETURN y AS z LIMIT 3` is a core query -/
